@@ -20,9 +20,22 @@ def look (kv : List (String × String)) (k : String) : String := (kv.lookup k).g
 
 def natOf' (s : String) : Nat := s.toNat?.getD 0
 
-def libOf : String → Option File
-  | "stale" => some ⟨1, true⟩
-  | "fresh" => some ⟨2, true⟩
+/-- Version of the whole source set, encoded as parser.c version + 10 × scanner.c version
+(0 = the grammar has no external scanner).  The current sources are always version 2 of each. -/
+def srcOf (kv : List (String × String)) : Nat := if look kv "scanner" == "1" then 22 else 2
+
+/-- The cached library: up to date, or built from version 1 of exactly the sources it is older than
+(`stalekind` ∈ p, s, ps; without a scanner only parser.c exists). -/
+def libOf (kv : List (String × String)) : Option File :=
+  match look kv "lib" with
+  | "fresh" => some ⟨srcOf kv, true⟩
+  | "stale" =>
+    if look kv "scanner" == "1" then
+      let sk := look kv "stalekind"
+      let p := if (sk.splitOn "p").length > 1 then 1 else 2
+      let sc := if (sk.splitOn "s").length > 1 then 1 else 2
+      some ⟨p + 10 * sc, true⟩
+    else some ⟨1, true⟩
   | _ => none
 
 /-- A real result token → model result (`none` = died); `Except` for tokens the model has no word for. -/
@@ -89,7 +102,7 @@ def predictCtl (variant : Variant) (kv : List (String × String)) : Option Pred 
   let broken := look kv "broken" == "1"
   let c : Cfg := { K, mayFail := broken, variant }
   let stray := if look kv "temp" == "1" then 1 else 0
-  let s0 := mkInit 2 (libOf (look kv "lib")) (look kv "lock" == "1") (n + 1)
+  let s0 := mkInit (srcOf kv) (libOf kv) (look kv "lock" == "1") (n + 1)
   -- the leftover lock's owner is nobody: `mkInit` uses index n+1
   match mrun c broken s0 (parseSteps (look kv "steps")) [] with
   | none => none
@@ -170,7 +183,7 @@ partial def exploreFree (c : Cfg) (crash : Bool) (work : List State) (seen : Std
     exploreFree c crash work seen outs (fuel - 1)
 
 def freeKey (kv : List (String × String)) : String :=
-  s!"{look kv "lib"}/{look kv "lock"}/{look kv "n"}/{look kv "broken"}/{look kv "crash"}"
+  s!"{look kv "lib"}/{look kv "lock"}/{look kv "n"}/{look kv "broken"}/{look kv "crash"}/{look kv "scanner"}/{if look kv "lib" == "stale" then look kv "stalekind" else "-"}"
 
 abbrev Cache := Std.HashMap String (Std.HashSet FreeSummary × Nat × Bool)
 
@@ -181,7 +194,7 @@ def freeSet (variant : Variant) (kv : List (String × String)) (cache : Cache) :
   | none =>
     let n := natOf' (look kv "n")
     let c : Cfg := { K := 1, mayFail := look kv "broken" == "1", variant }
-    let s0 := canon (mkInit 2 (libOf (look kv "lib")) (look kv "lock" == "1") n)
+    let s0 := canon (mkInit (srcOf kv) (libOf kv) (look kv "lock" == "1") n)
     let r := exploreFree c (look kv "crash" == "1") [s0] (Std.HashSet.emptyWithCapacity.insert s0) Std.HashSet.emptyWithCapacity 3000000
     (r, cache.insert key r)
 
@@ -201,7 +214,7 @@ def outcomeOfReal (kv : List (String × String)) : Outcome × Option String :=
     | .ok (some r) => (some r, bad)
     | .ok none => (none, bad.orElse fun _ => some "later-dead")
     | .error e => (none, bad.orElse fun _ => some s!"later-{e}")
-  ({ src := 2, compiles := look kv "broken" != "1",
+  ({ src := srcOf kv, compiles := look kv "broken" != "1",
      results := parsed.map fun r => match r with | .ok o => o | .error _ => none,
      finalLib := finalLibOf (look kv "finallib"), lockLeft := look kv "lockleft" == "1", later := laterR }, bad)
 
